@@ -43,7 +43,7 @@ ASSUMPTIONS = [
 ]
 MIN_NONTRIVIAL = {"quick": 20000, "thorough": 150000}
 MIN_OUTCOMES = {"quick": 20000, "thorough": 150000}
-MIN_SUB_TRACES = {"call": 1000, "disp": 1000, "tensor": 500, "points": 5000, "pointset": 500, "image": 2000}
+MIN_SUB_TRACES = {"repeat": 2000, "call": 1000, "disp": 1000, "tensor": 500, "points": 5000, "pointset": 500, "image": 2000}
 
 EPS32 = 2.0 ** -23
 C = 64.0
@@ -177,6 +177,13 @@ def class_menu(D: int, tier: str):
     out.append({"cls": "MultiLevel", "members": [{"cls": "FreeFormDeformation", "stride": 2}, {"cls": "DisplacementFieldTransform"}]})
     out.append({"cls": "MultiLevel", "members": [{"cls": "EulerRotation"}, {"cls": "AnisotropicScaling"}]})
     out.append({"cls": "MultiLevel", "members": [{"cls": "Translation"}, {"cls": "EulerRotation"}]})
+    # a HomogeneousTransform followed by each elementary linear class (the accumulated matrix then starts as the
+    # parameter tensor itself: any in-place arithmetic in the composition shows up as drifting / mutated parameters)
+    for cls in LINEAR_ELEMENTARY:
+        if cls == "QuaternionRotation" and D == 2:
+            continue
+        for comp in ("Sequential", "MultiLevel"):
+            out.append({"cls": comp, "members": [{"cls": "HomogeneousTransform"}, {"cls": cls, "alt": 1} if cls == "HomogeneousTransform" else {"cls": cls}], "hom_first": True})
     # composites with 3 and 4 members: all-linear, mixed linear/dense, all-dense; both member orders where order matters
     T, R, S, K, I = ({"cls": "Translation"}, {"cls": "EulerRotation"}, {"cls": "AnisotropicScaling"}, {"cls": "Shearing"}, {"cls": "IsotropicScaling"})
     DDF, DDF2, SVF, SVF2 = ({"cls": "DisplacementFieldTransform"}, {"cls": "DisplacementFieldTransform", "alt": 1},
@@ -241,6 +248,8 @@ def label(desc) -> str:
         return f"EulerRotation[{desc['order']}]"
     if cls in ("Sequential", "MultiLevel"):
         return f"{cls}[{','.join(label(m) for m in desc['members'])}]"
+    if cls in LINEAR_ELEMENTARY and desc.get("alt"):
+        return cls + "'"
     if cls == "Generic":
         return f"Generic[{desc['transform'].replace(' ', '')};{desc['model'].replace(' ', '')}" + (f";cps={desc['cps']}" if "cps" in desc else "") + "]"
     return cls
@@ -266,13 +275,15 @@ def configs(tier: str, seed: int):
                             if tier == "quick":
                                 # deterministic thinning: every value of every factor and every pair (grid, pm),
                                 # (N, kind) is kept for every class; the full product is the thorough tier.
-                                # The explicit 3-D Euler orders keep every 6th, composites with >= 3 members every 9th and the
+                                # The explicit 3-D Euler orders keep every 6th, composites with >= 3 members every 9th, the Homogeneous-first pairs every 6th and the
                                 # generic transform every 4th entry.
                                 mod = 3
                                 if desc["cls"] == "EulerRotation" and desc.get("order"):
                                     mod = 6
                                 elif len(desc.get("members", [])) >= 3:
                                     mod = 9
+                                elif desc.get("hom_first"):
+                                    mod = 6
                                 elif desc["cls"] == "Generic":
                                     mod = 4
                                 if (gi + (0 if N == 1 else 1) + (0 if kind == "param" else 1) + pms.index(pm) + ci) % mod != 0:
@@ -291,7 +302,7 @@ def bounds(tier):
         "groups": [1, 2],
         "parameter_kinds": ["param", "buffer"],
         "parameter_menu": ["default", "const (dense)", "small", "large"],
-        "views": {"call": 4, "disp/flow": 9, "tensor/matrix": 2, "points": 16 + 9 + 1 if tier == "quick" else 65, "pointset": 4, "image": 11 if tier == "quick" else 17},
+        "views": {"repeat(call,tensor,disp,call x grad/no_grad)": 8, "state_dict fingerprint": 1, "call": 4, "disp/flow": 9, "tensor/matrix": 2, "points": 16 + 9 + 1 if tier == "quick" else 65, "pointset": 4, "image": 11 if tier == "quick" else 17},
         "depth": 1,
     }
 
@@ -563,6 +574,53 @@ def run_config(spec, acc: Acc = None, only=None):
 
     def expected_world(w, n):
         return rt.world_map(R["ref"], rgrid, w, n)
+
+    # -- (c) fingerprint of every parameter / persistent buffer before the views ---------------------------------
+    def fingerprint():
+        fp = {}
+        st_, sd = guarded(lambda: dict(t.state_dict(keep_vars=True)))
+        if st_ == "ok":
+            for k_, v_ in sd.items():
+                if isinstance(v_, torch.Tensor):
+                    fp["state_dict:" + k_] = (tensor_bytes(v_), v_._version)
+        for name_, m_ in t.named_modules():
+            prm = getattr(m_, "params", None) if hasattr(m_, "data_shape") or hasattr(m_, "params") else None
+            if isinstance(prm, torch.Tensor):
+                fp["params:" + (name_ or "<root>")] = (tensor_bytes(prm), prm._version)
+        return fp
+
+    fp_before = fingerprint()
+
+    # -- (b) repeated evaluation of the same object: call, tensor, disp, call - twice, the second time under no_grad ---
+    xrep = _tensor(P[None])
+    reps = {"call": [], "tensor": [], "disp": []}
+    rep_ok = True
+    for mode in ("grad", "no_grad"):
+        for what in ("call", "tensor", "disp", "call"):
+            def one():
+                if what == "call":
+                    return t(xrep)
+                return getattr(t, what)()
+            if mode == "no_grad":
+                with torch.no_grad():
+                    st_, r_ = guarded(one)
+            else:
+                st_, r_ = guarded(one)
+            if acc is not None:
+                acc.trans()
+            if st_ == "raises":
+                ctx.viol("repeat", f"{what}[{mode}]", raises_kind(r_), exc_text(r_))
+                rep_ok = False
+                continue
+            reps[what].append((mode, r_.detach().clone()))
+    for what, lst in reps.items():
+        if acc is not None:
+            acc.trace("repeat", depth=1)
+        for mode, r_ in lst[1:]:
+            if r_.shape != lst[0][1].shape or not torch.equal(r_, lst[0][1]):
+                d_ = float((r_ - lst[0][1]).abs().max()) if r_.shape == lst[0][1].shape else float("nan")
+                ctx.viol("repeat", what, "not-bit-identical", f"{what} evaluated again on the same object ({mode}) differs from its first evaluation by {d_:.3e}")
+                break
 
     # -- parameter -> map of the members -------------------------------------------------------------------
     # (a) displacement buffer of dense members with zero / constant / (DDF) arbitrary parameters
@@ -873,6 +931,18 @@ def run_config(spec, acc: Acc = None, only=None):
             if acc is not None:
                 acc.info["image_samples_judged"] = acc.info.get("image_samples_judged", 0) + int(valid.sum())
                 acc.info["image_samples_total"] = acc.info.get("image_samples_total", 0) + int(valid.size)
+
+    # -- (c) views must not change parameters ------------------------------------------------------------------------
+    fp_after = fingerprint()
+    if acc is not None:
+        acc.trace("repeat", depth=1)
+    changed = sorted(k_ for k_ in fp_before if k_ not in fp_after or fp_after[k_][0] != fp_before[k_][0])
+    bumped = sorted(k_ for k_ in fp_before if k_ in fp_after and fp_after[k_][0] == fp_before[k_][0] and fp_after[k_][1] != fp_before[k_][1])
+    added = sorted(k_ for k_ in fp_after if k_ not in fp_before)
+    if changed or added:
+        ctx.viol("state", "state_dict", "parameters-mutated", f"evaluating the views changed {changed[:4]} (new entries {added[:4]})")
+    elif bumped:
+        ctx.viol("state", "state_dict", "parameters-written-in-place", f"evaluating the views wrote in place to {bumped[:4]} (same values, _version bumped)")
     return ctx.out
 
 
